@@ -1,6 +1,7 @@
 // C01 add/sub, C02 multiply, C03 divide, C06 ordering/NaN/neg/abs, C15 floor/ceil, C18 shifts and &
 // Oracles are exact __int128 models written from the property statements.
 #include "core.h"
+#include "gen.h"
 
 namespace
 {
@@ -113,6 +114,7 @@ void j_self(Ctx & c, int64_t a, int64_t, int64_t)
   }
 void c01_init()
   {
+  reassign_setup();
   ADD_SELF[0] = resolve("addeq_self"); ADD_SELF[1] = resolve("addeq_ref_self"); SUB_SELF[0] = resolve("subeq_self"); SUB_SELF[1] = resolve("subeq_ref_self");
   auto mk = [](std::initializer_list<const char *> v, std::initializer_list<const char *> nanv) { std::vector<Op> o; for(auto n : v) o.push_back({ resolve(n), false }); for(auto n : nanv) o.push_back({ resolve(n), true }); return o; };
   ADD = mk({ "add_ff", "addeq_ff", "fn_add_ff" }, { "add_isnan" });
@@ -133,6 +135,12 @@ void c01_init()
 extern Property P_C01;
 void c01_run(Ctx & c)
   {
+  { const Check & RA = P_C01.checks[P_C01.checks.size() - 1]; const auto & LL = lattice(); uint64_t ridx = 0;
+    for(int64_t k = 0; k <= 3; ++k)
+      {
+      for(int64_t a : LL) if(c.mine(ridx++)) c.run_check(RA, a, LL[(ridx * 11) % LL.size()], k);
+      uint64_t m = c.share(c.n(20000, 2000000)); for(uint64_t i = 0; i < m; ++i) c.run_check(RA, c.rng.logu(), c.rng.logu(), k);
+      } }
   const Check & ADDC = P_C01.checks[0], & SUBC = P_C01.checks[1], & CONSTC = P_C01.checks[2], & ACC = P_C01.checks[3], & SELF = P_C01.checks[4];
   const auto & L = lattice();
   uint64_t idx = 0;
@@ -181,7 +189,8 @@ Property P_C01 = { "C01", c01_init, c01_run,
     { "sub", j_sub, "a-b over sub_ff, subeq_ff, fn_sub_ff, sub_isnan and guarded shapes; a,b raw" },
     { "const", j_const, "a (+/-) K and K (+/-) a with compile-time constant K = CONSTS[b]; a raw" },
     { "accum", j_accum, "s=a; repeat b times s+=a (and s-=(-a)); only the last step may overflow" },
-    { "self", j_self, "aliased compound assignment: x += x and x -= x on one object (directly and through two references); a raw" } },
+    { "self", j_self, "aliased compound assignment: x += x and x -= x on one object (directly and through two references); a raw" },
+    { "reassign", judge_reassign, "a+b / a-b computed twice in one function with one operand object modified in between; the second result must be the plain operator on the modified operands; c = shape 0..3" } },
   { "aliased-operands", "in-range", "positive-overflow", "negative-overflow", "exact=-2^63", "exact=max", "exact=lowest", "guard-pp", "guard-nn", "guard-pn", "guard-np", "const-operand", "accumulate" },
   "exact result within 65536 raw of max()/lowest() or outside [lowest(),max()] (expected NaN); distinct by (a,b)", {}, {} };
 Registrar R_C01(&P_C01);
@@ -257,6 +266,8 @@ void j_mul_const(Ctx & c, int64_t a, int64_t which, int64_t)
       if(in ? r.v != (int64_t)E : !model_isnan(r.v)) c.violation(f->entry + (in ? "/in-range/wrong-value" : "/out-of-range/not-nan"), (int)ci, a, which, 0, i2s(r.v), in ? i128s(E) : "NaN");
       }
   }
+Fn I128_SUP, DIV_I128[2];
+inline i128 dec_i128(int64_t b) { int sh = (int)(b & 0x7f); if(sh > 70) sh = 70; return (i128)(b >> 8) * ((i128)1 << sh); }
 Fn MUL_SELF[2];
 void j_mul_self(Ctx & c, int64_t a, int64_t, int64_t)
   {
@@ -276,6 +287,7 @@ void j_mul_self(Ctx & c, int64_t a, int64_t, int64_t)
   }
 void c02_init()
   {
+  reassign_setup();
   MUL_SELF[0] = resolve("muleq_self"); MUL_SELF[1] = resolve("muleq_ref_self"); ks_init();
   MUL = { resolve("mul_ff"), resolve("muleq_ff"), resolve("fn_mul_ff") };
   for(int i = 0; i < N_INT; ++i) { std::string t = INT_TYPES[i].tag; MULI[i] = { resolve(("mul_f" + t).c_str()), resolve(("mul_" + t + "f").c_str()), resolve(("muleq_f" + t).c_str()) }; }
@@ -289,6 +301,12 @@ int64_t mul_complement(Rng & r, int64_t a, i128 T)
   }
 void c02_run(Ctx & c)
   {
+  { const Check & RA = P_C02.checks[P_C02.checks.size() - 1]; const auto & LL = lattice(); uint64_t ridx = 0;
+    for(int64_t k = 4; k <= 5; ++k)
+      {
+      for(int64_t a : LL) if(c.mine(ridx++)) c.run_check(RA, a, LL[(ridx * 11) % LL.size()], k);
+      uint64_t m = c.share(c.n(20000, 2000000)); for(uint64_t i = 0; i < m; ++i) c.run_check(RA, c.rng.logu(), c.rng.logu(), k);
+      } }
   const Check & M = P_C02.checks[0], & MS = P_C02.checks[9], & MK = P_C02.checks[10];
   const auto & L = lattice();
   uint64_t idx = 0;
@@ -299,6 +317,14 @@ void c02_run(Ctx & c)
     for(int64_t d = -65536 + c.shard; d <= 65536; d += c.nshards) { c.run_check(MS, root + d); c.run_check(MS, -(root + d)); }
     for(int64_t da = -48; da <= 48; ++da) for(int64_t db = -48; db <= 48; ++db) if(c.mine(idx++)) { c.run_check(M, root + da, root + db); c.run_check(M, -(root + da), root + db); }
     }
+  // exact factor pairs of the frontier constants: raw products that land exactly on 2^63-2 .. 2^63+1 and on the value frontier
+  if(c.shard == 0)
+    for(uint64_t T : { (uint64_t)RAW_MAX, (uint64_t)RAW_MAX + 1, (uint64_t)RAW_MAX + 2, (uint64_t)RAW_MAX + 3, (uint64_t)RAW_MAX - 1, (uint64_t)RAW_MAX - 2 })
+      for(uint64_t d : divisors_of(T))
+        {
+        uint64_t q = T / d; if(d > (uint64_t)RAW_MAX || q > (uint64_t)RAW_MAX) continue;
+        for(int sa = -1; sa <= 1; sa += 2) for(int sb = -1; sb <= 1; sb += 2) { c.run_check(M, sa * (int64_t)d, sb * (int64_t)q); c.stratum("exact-factor-pair"); }
+        }
   // compile-time constant multipliers
   for(size_t k = 0; k < KS.size(); ++k)
     {
@@ -362,8 +388,9 @@ Property P_C02 = { "C02", c02_init, c02_run,
     { "mul_u8", j_mul_int<4>, "" }, { "mul_u16", j_mul_int<5>, "" }, { "mul_u32", j_mul_int<6>, "" }, { "mul_u64", j_mul_int<7>, "b holds the uint64 bit pattern" },
     { "mul_self", j_mul_self, "x *= x on one object (directly and through two references); a raw" },
     { "mul_const", j_mul_const, "a*K, K*a, a*=K with a literal integer K at the call site (2,3,4,-1,0,65536,2^20,uint16 8,1000000007,uint64 2^63+1); a raw, b index of K" },
-    { "mul_ll", j_mul_int<8>, "long long scalar (a distinct type from int64_t)" }, { "mul_ull", j_mul_int<9>, "unsigned long long scalar; b holds the bit pattern" } },
-  { "constant-scalar-multiplier", "aliased-multiply", "product-fits-int64", "product-outside-range", "product-between", "negative-inexact", "scalar-in-range", "scalar-out-of-range", "scalar-beyond-2^31", "u64-scalar>=2^63" },
+    { "mul_ll", j_mul_int<8>, "long long scalar (a distinct type from int64_t)" }, { "mul_ull", j_mul_int<9>, "unsigned long long scalar; b holds the bit pattern" },
+    { "reassign", judge_reassign, "a*b computed twice in one function with one operand object modified in between; c = shape 4..5" } },
+  { "exact-factor-pair", "constant-scalar-multiplier", "aliased-multiply", "product-fits-int64", "product-outside-range", "product-between", "negative-inexact", "scalar-in-range", "scalar-out-of-range", "scalar-beyond-2^31", "u64-scalar>=2^63" },
   "raw product within 2^40 of the int64 frontier or not fitting int64 (fixed*fixed); scalar product within 2^32 of 2^63 or out of range; distinct by (a,b[,type])", {}, {} };
 Registrar R_C02(&P_C02);
 
@@ -428,6 +455,23 @@ void j_div_const(Ctx & c, int64_t a, int64_t which, int64_t)
       if((i128)r.v != q && (i128)r.v != fl) c.violation(f->entry + "/wrong-quotient", (int)ci, a, which, 0, i2s(r.v), i128s(q));
       }
   }
+void j_div_i128(Ctx & c, int64_t a, int64_t enc, int64_t)
+  {
+  if(!model_finite(a) || (enc & 0x80)) return;
+  i128 nv = dec_i128(enc);
+  c.stratum(nv == 0 ? "int128-zero-divisor" : (((nv < 0 ? -nv : nv) >= ((i128)1 << 64)) ? "int128-divisor>=2^64" : "int128-divisor")); c.nontrivial(hash3(37, a, enc));
+  i128 q = 0, fl = 0;
+  if(nv != 0) { q = (i128)a / nv; fl = q; if(((i128)a % nv != 0) && ((a < 0) != (nv < 0))) fl = q - 1; }
+  for(Fn * f : { &DIV_I128[0], &DIV_I128[1] })
+    for(size_t ci = 0; ci < g_cfgs.size(); ++ci)
+      {
+      if(I128_SUP.f[ci](0, 0) == 0) continue;
+      CallRes r = c.call(f->f[ci], a, enc);
+      if(r.sig) { c.signal_event((int)ci, f->entry.c_str(), a, enc, r.sig); continue; }
+      if(nv == 0) { if(!model_isnan(r.v)) c.violation(f->entry + "/zero-divisor/not-nan", (int)ci, a, enc, 0, i2s(r.v), "NaN"); continue; }
+      if((i128)r.v != q && (i128)r.v != fl) c.violation(f->entry + "/wrong-quotient", (int)ci, a, enc, 0, i2s(r.v), i128s(q));
+      }
+  }
 Fn DIV_SELF[2];
 void j_div_self(Ctx & c, int64_t a, int64_t, int64_t)
   {
@@ -445,16 +489,27 @@ void j_div_self(Ctx & c, int64_t a, int64_t, int64_t)
   }
 void c03_init()
   {
+  reassign_setup();
   DIV_SELF[0] = resolve("diveq_self"); DIV_SELF[1] = resolve("diveq_ref_self"); ks_init();
+  I128_SUP = resolve("i128_supported"); DIV_I128[0] = resolve("div_fi128"); DIV_I128[1] = resolve("diveq_fi128");
   DIV = { resolve("div_ff"), resolve("diveq_ff"), resolve("fn_div_ff") };
   for(int i = 0; i < N_INT; ++i) { std::string t = INT_TYPES[i].tag; DIVI[i] = { resolve(("div_f" + t).c_str()), resolve(("diveq_f" + t).c_str()) }; }
   }
 extern Property P_C03;
 void c03_run(Ctx & c)
   {
+  { const Check & RA = P_C03.checks[P_C03.checks.size() - 1]; const auto & LL = lattice(); uint64_t ridx = 0;
+    for(int64_t k = 6; k <= 7; ++k)
+      {
+      for(int64_t a : LL) if(c.mine(ridx++)) c.run_check(RA, a, LL[(ridx * 11) % LL.size()], k);
+      uint64_t m = c.share(c.n(20000, 2000000)); for(uint64_t i = 0; i < m; ++i) c.run_check(RA, c.rng.logu(), c.rng.logu(), k);
+      } }
   const Check & D = P_C03.checks[0], & DS = P_C03.checks[9], & DK = P_C03.checks[10];
   const auto & L = lattice();
   uint64_t idx = 0;
+  { const Check & DI = P_C03.checks[P_C03.checks.size() - 2]; const auto & BI = boundary(K_I128); uint64_t ii = 0;
+    for(int64_t a : lattice_small()) for(int64_t e : BI) if(c.mine(ii++)) c.run_check(DI, a, e);
+    uint64_t m = c.share(c.n(40000, 4000000)); for(uint64_t i = 0; i < m; ++i) c.run_check(DI, c.rng.logu(), random_of_kind(c.rng, K_I128)); }
   for(size_t k = 0; k < KS.size(); ++k)
     {
     for(int64_t a : L) if(c.mine(idx++)) c.run_check(DK, a, (int64_t)k);
@@ -508,7 +563,9 @@ Property P_C03 = { "C03", c03_init, c03_run,
     { "div_u8", j_div_int<4>, "" }, { "div_u16", j_div_int<5>, "" }, { "div_u32", j_div_int<6>, "" }, { "div_u64", j_div_int<7>, "b holds the uint64 bit pattern" },
     { "div_self", j_div_self, "x /= x on one object (directly and through two references); a raw" },
     { "div_const", j_div_const, "a/K, a/=K with a literal integer K at the call site; a raw, b index of K" },
-    { "div_ll", j_div_int<8>, "long long divisor" }, { "div_ull", j_div_int<9>, "unsigned long long divisor; b holds the bit pattern" } },
+    { "div_ll", j_div_int<8>, "long long divisor" }, { "div_ull", j_div_int<9>, "unsigned long long divisor; b holds the bit pattern" },
+    { "div_i128", j_div_i128, "fixed / __int128 and /= in the GNU-dialect configurations; a raw, b = (mantissa << 8) | shift" },
+    { "reassign", judge_reassign, "a/b computed twice in one function with one operand object modified in between; c = shape 6..7" } },
   { "constant-scalar-divisor", "aliased-divide", "zero-divisor", "dividend<2^31", "dividend>=2^31", "divisor=+-1raw", "preshift-low63-zero", "scalar-zero-divisor", "scalar-divisor", "scalar-divisor=-1", "u64-divisor>=2^63" },
   "zero divisor, divisor -1, |a| >= 2^46 raw (at or beyond the pre-shift frontier), scalar divisor 0/-1/beyond 2^31; distinct by (a,b[,type])", {}, {} };
 Registrar R_C03(&P_C03);
